@@ -140,7 +140,8 @@ fn gen_scenario(r: &mut Rng, miri: bool) -> Scenario {
                     0 | 1 | 2 => Sig::Ack { file: 0, off: r.below(sent + 2) },
                     3 => Sig::Ack { file: r.below(2) as u32 + 1, off: u64::MAX },
                     4 => Sig::Cancel,
-                    5 => Sig::Advance { file: 1 },
+                    // any index: a restart of the same file (0), a later file, or an earlier one after another advance
+                    5 => Sig::Advance { file: *r.pick(&[0u32, 1, 1, 2]) },
                     6 => Sig::Resume { file: 0, off: unit * r.below(pre + 1) },
                     7 => Sig::Send { n: 1 + r.below(2) },
                     8 => Sig::Kick,
